@@ -91,7 +91,7 @@ def justified_set(framing, stream, side='req'):
     return out
 
 
-def run_case(acc, framing, side, stream, chunks, cls, kind, pc, wit_base, lay=None):
+def run_case(acc, framing, side, stream, chunks, cls, kind, pc, wit_base, lay=None, unit=UNIT):
     rec = Rec(framers.decoder(side))
     fr = framers.FRAMERS[framing](rec, client=None)
     delivered = []
@@ -109,7 +109,7 @@ def run_case(acc, framing, side, stream, chunks, cls, kind, pc, wit_base, lay=No
                 pass
     for ch in chunks:
         try:
-            fr.processIncomingPacket(ch, cb, [UNIT], single=False)
+            fr.processIncomingPacket(ch, cb, [unit], single=False)
         except Exception:   # noqa
             pass         # an escaping exception is C06/C12 matter; a real caller calls again
     acc.inc('evaluations')
@@ -170,9 +170,41 @@ def explore(acc, framing, side, m, tier, lay=None):
     acc.inc('faulty_frames', len(seen))
 
 
+LOW_UNITS = (0x00, 0x05, 0x0A)
+
+
+def explore_header(acc, framing, side, m, unit, lay=None):
+    """the same message addressed to a unit whose id has a leading zero digit / is a single small byte: EVERY substitution,
+    deletion and insertion (all 255 values) in the frame's header, alone and followed by a valid frame"""
+    raw = pdu.encode(m)
+    frame = adu.build(framing, unit, raw, tid=0x0102)
+    other = adu.build(framing, unit, pdu.encode(catalog.BY_NAME['req06' if side == 'req' else 'rsp06']), tid=0x0304)
+    cls = catalog.name(m)
+    seen = set()
+    for i in range(HDR[framing]):
+        cases = [('subst', frame[:i] + bytes([v]) + frame[i + 1:]) for v in range(256) if v != frame[i]]
+        cases += [('insert', frame[:i] + bytes([v]) + frame[i:]) for v in range(256)]
+        cases += [('delete', frame[:i] + frame[i + 1:])]
+        for kind, bad in cases:
+            if bad in seen:
+                continue
+            seen.add(bad)
+            wb = dict(framing=framing, side=side, cls=cls, fault=kind, at=i, unit=unit)
+            run_case(acc, framing, side, bad, [bad], cls, kind + '/unit%02x' % unit, 'header', wb, lay, unit)
+            run_case(acc, framing, side, bad + other, [bad + other], cls, kind + '+followed/unit%02x' % unit, 'header', wb, lay, unit)
+    acc.inc('faulty_frames', len(seen))
+    acc.add('nontrivial', (framing, side, cls, unit))
+
+
 def shard(args):
     framing, side, names, tier = args
     acc = Acc()
+    if side == 'low-units':
+        lay = stores.Layout(('seq', 0, 0x200), True, False)
+        for unit in LOW_UNITS:
+            explore_header(acc, framing, 'req', catalog.BY_NAME[names[0]], unit, lay)
+            explore_header(acc, framing, 'rsp', catalog.BY_NAME[names[1]], unit, None)
+        return acc
     lay = stores.Layout(('seq', 0, 0x200), True, False)
     for nme in names:
         m = catalog.BY_NAME[nme]
@@ -191,6 +223,8 @@ def run(tier, seed):
             names = [catalog.name(m) for m in ms]
             for nme in names:
                 shards.append((framing, side, [nme], tier))
+    for framing in ('rtu', 'ascii', 'binary', 'tcp'):
+        shards.append((framing, 'low-units', ['req06', 'rsp03'], tier))
     acc = par.run_shards(shard, shards)
     he = None
     if acc.n.get('justified_deliveries', 0) < 100:
@@ -204,7 +238,8 @@ def run(tier, seed):
                     rule='one case = one faulty byte stream fed to a fresh real framer; non-trivial = distinct (framer, direction, class) triples; '
                          'justified_deliveries counts deliveries the reference accepts (e.g. the valid neighbour frame)',
                     bounds='frames up to %d bytes of every catalogued class, unit 0x11; faults: every single-bit flip, every double-bit flip (frames <= %d bytes), '
-                           'substitution by %s, every deletion, insertion of 16 boundary bytes at every position, every truncation; contexts: alone whole, alone '
+                           'substitution by %s, every deletion, insertion of 16 boundary bytes at every position, every truncation; units 0x00, 0x05, 0x0A: every '
+                           'substitution / insertion (all 255 values) / deletion in the header of a write-register request and a read response; contexts: alone whole, alone '
                            'byte-by-byte, preceded / followed by a valid frame%s'
                            % ((24, 10, '16 boundary values', '') if tier == 'quick' else (48, 13, 'all 255 other values', ', between two valid frames byte-by-byte'))),
                 assumptions=['ref/adu.py decides integrity (bitwise CRC-16, LRC + hex digits, MBAP length = PDU length + 1)',
@@ -220,5 +255,5 @@ def replay(w):
         pos += ln
     m = catalog.BY_NAME[w['cls']]
     lay = stores.Layout(('seq', 0, 0x200), True, False) if (w['side'] == 'req' and m['fc'] in (5, 6, 15, 16, 22, 23)) else None
-    run_case(acc, w['framing'], w['side'], stream, chunks, w['cls'], w['fault'], 'replay', dict(w), lay)
+    run_case(acc, w['framing'], w['side'], stream, chunks, w['cls'], w['fault'], 'replay', dict(w), lay, w.get('unit', UNIT))
     return bool(acc.violations), '\n'.join('%s: %s' % (v['sig'], v['msg']) for v in acc.violations) or 'no violation'
